@@ -29,7 +29,7 @@ from ..exc import ExcModel, raised_class
 from ..loader import AnalysisError, ClassInfo, FunctionInfo, walk_scope
 from ..resolve import last_attr
 from ..util import calls, try_protecting, txt
-from ._g3_helpers import TOP, FD, EnumCls, Explorer, Obj, Unknown, alias_roots, calls_to, enum_of, kwarg, params_of, xeval, xtruth
+from ._g3_helpers import TOP, FD, EnumCls, Explorer, Fn, Obj, Unknown, alias_roots, calls_to, enum_of, kwarg, params_of, xeval, xtruth
 from .c18 import LIMIT, check_bounded_accumulation, module_env
 
 META = {
@@ -111,6 +111,7 @@ def run(ctx: Ctx) -> None:
     ctx.assumptions += [
         "Falcon runs process_request in list order before routing; req.bounded_stream is bounded by Content-Length when one is declared",
         "an exempted path that is not an RPC route shape (the health endpoint itself) carries no request body of interest",
+        "parse_encoding_list (if the lookup uses it) behaves as documented: unknown tokens and parameters are dropped, order kept",
     ]
     model = ExcModel(ctx.repo, ctx.res)
     E = enum_of(ctx, CODEC + ":Encoding")
@@ -288,14 +289,27 @@ def run(ctx: Ctx) -> None:
         raise AnalysisError("C17: no membership test of the request codec against a configured set (unsupported gate idiom)")
     stash_gets = [c for c in calls(cpr) if isinstance(c.func, ast.Name) and c.func.id == "getattr" and len(c.args) >= 2 and isinstance(c.args[1], ast.Constant) and c.args[1].value == stash_attr]
 
-    def cscn(header: object, decodable: tuple, *, stash_val: object = TOP):
-        env: dict[str, object] = {"Encoding": E, dec_attr: decodable, dcap_attr: CAP}
+    def _parse_model(v: object) -> tuple:
+        """Model of vgi_rpc._codec.parse_encoding_list as documented: comma list, case-insensitive, parameters
+        dropped, unknown tokens skipped silently, order kept, duplicates removed."""
+        if not isinstance(v, str):
+            raise Unknown("parse_encoding_list argument")
+        out: list = []
+        for raw in v.split(","):
+            tok = raw.strip().lower().split(";", 1)[0].strip()
+            for m in E.members:
+                if tok and m.value == tok and m not in out:
+                    out.append(m)
+        return tuple(out)
+
+    def cscn(header: object, decodable: tuple, *, stash_val: object = TOP, avoid: set[int] | frozenset[int] = frozenset()):
+        env: dict[str, object] = {"Encoding": E, dec_attr: decodable, dcap_attr: CAP, "parse_encoding_list": Fn("parse_encoding_list", _parse_model)}
         for h in hdr_calls:
             env[txt(h)] = header
         if stash_val is not TOP:
             for g in stash_gets:
                 env[txt(g)] = stash_val
-        return Explorer(ctx, cpr).run(env)
+        return Explorer(ctx, cpr).run(env, avoid=avoid)
 
     Z, G, I = E.member("ZSTD"), E.member("GZIP"), E.member("IDENTITY")
     for hv, inst in ((None, "absent"), ("", "empty")):
@@ -308,6 +322,17 @@ def run(ctx: Ctx) -> None:
     o = cscn("zstd", (G,))
     ctx.check(not o.reaches(dec) and not o.returns_normally and o.raised_classes() == {"HTTPUnsupportedMediaType"}, "RF-DOM", "disabled-coding->415", cpr, hdr_calls[0],
               ok="a known but disabled coding is refused with 415 before decoding", bad=f"a disabled coding is not refused with 415 (raises {sorted(o.raised_classes())}, decoder reached: {o.reaches(dec)})")
+    # a header naming several codings: the body went through all of them, so one unknown member makes it undecodable,
+    # and a list that starts with a harmless token must not be judged by that token alone
+    o = cscn("gzip, x-unknown", (Z, G))
+    ctx.check(not o.reaches(dec) and not o.returns_normally and o.raised_classes() == {"HTTPUnsupportedMediaType"}, "RF-DOM", "unknown-coding-in-list->415", cpr, hdr_calls[0],
+              ok="`Content-Encoding: gzip, x-unknown` is refused with 415 before decoding",
+              bad=f"`Content-Encoding: gzip, x-unknown` is not refused with 415 (raises {sorted(o.raised_classes())}, decoder reached: {o.reaches(dec)}): the unknown coding is silently dropped "
+              "and the body is decoded as if only the first coding had been applied")
+    o = cscn("identity, zstd", (Z, G), avoid=set(ccfg.attempt(dec)))
+    ctx.check(not o.returns_normally, "RF-DOM", "coding-list-not-passed-through-raw", cpr, hdr_calls[0],
+              ok="`Content-Encoding: identity, zstd` is decoded or refused, never handed on undecoded",
+              bad="`Content-Encoding: identity, zstd` passes through without decoding (judged by its first token): the RPC layer receives the still zstd-encoded body")
     o = cscn("gzip", (Z, G))
     ctx.check(o.reaches(dec) and "HTTPUnsupportedMediaType" not in o.raised_classes(), "RF-DOM", "enabled-coding-decoded", cpr, dec,
               ok="an enabled coding reaches the decoder", bad="an enabled coding is refused or never decoded")
